@@ -686,6 +686,21 @@ def run(ctx):
             desc_s = desc
         ctx.case(sample=desc_s if nt else None, nontrivial_key=tuple(sorted((k_, str(v)) for k_, v in desc.items())) if nt else None)
         bad = judge(c, g, truth)
+        if not bad and c['mr'] is not None and (c.get('ot') or 'triplets') == 'triplets' and (c['comp'] > 1 or c['ncpu'] > 1) and g[0] == 'ok':
+            # with max_returns the statement still says "exactly the result of the single-process uncompressed run": WHICH of several
+            # neighbours tied at the cut-off distance are reported must not depend on the configuration either (seeded change C11-r7m1)
+            kw0 = dict(_kwargs(c), n_cpu=1, compression=1)
+            g0 = call_impl(lambda: nn.kdtree(_arg(c), **kw0))
+            ctx.count('max_returns: compared with the single-process uncompressed run')
+            try:
+                same = g0[0] == 'ok' and canon_triplets(g0[1]) == canon_triplets(g[1])
+            except Exception:
+                same = False
+            if not same:
+                bad = ('nn.kdtree[max_returns]', 'kdtree(%d sequences, n_cpu=%d, compression=%d, max_returns=%d, %s) reports other neighbours than the '
+                       'single-process uncompressed run with the same max_returns: %s vs %s on %s' %
+                       (c['n'], c['ncpu'], c['comp'], c['mr'], c['mode'], str(g[1])[:300], str(g0[1])[:300] if g0[0] == 'ok' else g0,
+                        c['seqs'] if sum(map(len, c['seqs'])) < 3000 else '(long sequences)'))
         if bad:
             ctx.violation('property', bad[1], desc, site=bad[0])
     # model cross-check of top-m / stable order through the algorithm-mirroring model (auxiliary statistics + vm_compute)
